@@ -9,7 +9,7 @@ all clock readings and chains of versions is not decided.
 """
 import ast
 
-from ..astutil import body_raises, call_simple_name, dotted, exc_name, guard_chain, names_in, returns_of, short
+from ..astutil import body_raises, call_simple_name, dotted, exc_name, guard_chain, names_in, pm, pmall, returns_of, short
 from ..cfg import cfg_of, node_calls, own_exprs
 from ..forward import flow_of
 from ..loader import AnalysisError, External, FunctionInfo, body_walk, norm, walk_no_nested
@@ -112,20 +112,28 @@ def rule_pipeline(ctx):
                   "a caller-supplied modified time is not compared with the old one", file=rel, line=br.lineno,
                   function=fi.qualname, expected="if new_modified <= old_modified: raise InvalidValueError", found="absent")
         els = " ; ".join(norm(s) for s in br.orelse)
-        okc = "get_timestamp()" in els and "_fudge_modified(" in els and "kwargs['modified'] = new_modified" in els
-        run.check(okc, R, key(rel, fi.qualname, "clock-and-fudge"),
+        bnd = pmall(els, "$n = get_timestamp()", "$n = _fudge_modified($o, $n, ", "kwargs['modified'] = $n")
+        run.check(bnd is not None, R, key(rel, fi.qualname, "clock-and-fudge"),
                   "without a supplied modified time the new one is not clock + _fudge_modified stored into kwargs", file=rel,
                   line=br.lineno, function=fi.qualname,
-                  expected="new_modified = _fudge_modified(old_modified, get_timestamp(), ...); kwargs['modified'] = new_modified",
+                  expected="n = get_timestamp(); n = _fudge_modified(old, n, ...); kwargs['modified'] = n",
                   found=els[:200])
-        # the fudge call receives (old, new, use_stix21) with use_stix21 <=> version != '2.0'
+        # the fudge call receives (old, new, use_stix21) with use_stix21 <=> version != '2.0'; `old` is the parsed previous time
         fc = [c for c in body_walk(fi.node) if isinstance(c, ast.Call) and call_simple_name(c) == "_fudge_modified"]
         if fc:
             args = [norm(x) for x in fc[0].args]
-            okf = len(args) == 3 and args[0] == "old_modified" and args[1] == "new_modified" and args[2] in (
-                "stix_version != '2.0'", "stix_version == '2.1'")
+            fl = flow_of(fi)
+            okf = len(args) == 3 and bnd is not None and args[1] == bnd["n"] and args[0] == bnd["o"]
+            if okf:
+                po = fl.prov(fc[0].args[0])
+                okf = "parse_into_datetime" in po.calls and any(v in ("modified", "created") for v in po.consts if isinstance(v, str))
+                pv = fl.prov(fc[0].args[2])
+                okf = okf and "_check_versionable_object" in pv.calls and any(v in ("2.0", "2.1") for v in pv.consts if isinstance(v, str)) \
+                    and isinstance(fc[0].args[2], ast.Compare) and (
+                        (isinstance(fc[0].args[2].ops[0], ast.NotEq) and norm(fc[0].args[2].comparators[0]) == "'2.0'")
+                        or (isinstance(fc[0].args[2].ops[0], ast.Eq) and norm(fc[0].args[2].comparators[0]) == "'2.1'"))
             run.check(okf, R, key(rel, fi.qualname, "fudge-arguments"), "_fudge_modified is called with the wrong operands", file=rel,
-                      line=fc[0].lineno, function=fi.qualname, expected="(old_modified, new_modified, stix_version != '2.0')",
+                      line=fc[0].lineno, function=fi.qualname, expected="(<parsed old modified>, <clock reading>, <version> != '2.0')",
                       found=args)
     # final constructor call filters None
     rets = returns_of(fi)
@@ -135,7 +143,8 @@ def rule_pipeline(ctx):
         if isinstance(v, ast.Call) and any(k.arg is None and isinstance(k.value, ast.DictComp) for k in v.keywords):
             dc = [k.value for k in v.keywords if k.arg is None][0]
             conds = [norm(c) for gen in dc.generators for c in gen.ifs]
-            okn = any(c.endswith("is not None") for c in conds) and norm(v.func) == "cls"
+            pf = flow_of(fi).prov(v.func)
+            okn = any(c.endswith("is not None") for c in conds) and "type" in pf.calls and fi.params[0] in pf.params
     run.check(okn, R, key(rel, fi.qualname, "none-removes-property"),
               "None values are not removed before construction (a None change must delete the property)", file=rel,
               line=rets[-1].lineno if rets else fi.node.lineno, function=fi.qualname,
@@ -155,7 +164,7 @@ def rule_pipeline(ctx):
               "the previous version time is not modified-or-created", file=rel, line=fi.node.lineno, function=fi.qualname,
               expected="data.get('modified') or data.get('created')", found="changed")
     # allow_custom of the new object: from the object's flag when not given
-    run.check("new_obj_inner['allow_custom'] = data.has_custom" in txt, R, key(rel, fi.qualname, "allow-custom-from-flag"),
+    run.check(pm(txt, "$inner['allow_custom'] = %s.has_custom" % data) is not None, R, key(rel, fi.qualname, "allow-custom-from-flag"),
               "auto-detection of allow_custom from the object's has_custom is gone", file=rel, line=fi.node.lineno,
               function=fi.qualname, expected="if allow_custom is None: new_obj_inner['allow_custom'] = data.has_custom", found="changed")
     # revoke
@@ -189,15 +198,19 @@ def rule_unmodifiable(ctx):
     fi = prog.func(V + "::new_version")
     # the refused set is computed from chain(STIX_UNMOD_PROPERTIES, sco_locked_props) ∩ kwargs
     loops = [n for n in body_walk(fi.node) if isinstance(n, ast.For) and "STIX_UNMOD_PROPERTIES" in norm(n.iter)]
-    ok = bool(loops) and "sco_locked_props" in norm(loops[0].iter) and any(
+    lock_var = None
+    for n in body_walk(fi.node):
+        if isinstance(n, ast.Assign) and isinstance(n.targets[0], ast.Name) and norm(n.value).endswith("._id_contributing_properties"):
+            lock_var = n.targets[0].id
+    ok = bool(loops) and lock_var is not None and lock_var in names_in(loops[0].iter) and any(
         isinstance(s, ast.If) and norm(s.test) == "%s in kwargs" % norm(loops[0].target) for s in loops[0].body)
     run.check(ok, R, key(m.relpath, fi.qualname, "refused-set"), "the refused set is not (unmodifiable + SCO-locked) ∩ requested changes",
               file=m.relpath, line=fi.node.lineno, function=fi.qualname,
               expected="for prop in chain(STIX_UNMOD_PROPERTIES, sco_locked_props): if prop in kwargs: ...",
               found=short(loops[0], 160) if loops else None)
     # SCO lock under version == 5 from cls._id_contributing_properties
-    asg = [n for n in body_walk(fi.node) if isinstance(n, ast.Assign) and norm(n.targets[0]) == "sco_locked_props"
-           and "_id_contributing_properties" in norm(n.value)]
+    asg = [n for n in body_walk(fi.node) if isinstance(n, ast.Assign) and isinstance(n.targets[0], ast.Name)
+           and norm(n.value).endswith("._id_contributing_properties")]
     ok = False
     if asg:
         gc = [norm(t) for t, pol, _ in guard_chain(asg[0]) if pol]
@@ -292,11 +305,12 @@ def rule_granularity(ctx):
     # new_version parses both times at millisecond precision with "min" iff 2.1
     nv = prog.func(V + "::new_version")
     txt = norm(nv.node)
-    okp = "precision_constraint = 'min' if stix_version == '2.1' else 'exact'" in txt
+    bpc = pm(txt, "$pc = 'min' if $v == '2.1' else 'exact'")
+    okp = bpc is not None
     calls = [c for c in body_walk(nv.node) if isinstance(c, ast.Call) and call_simple_name(c) == "parse_into_datetime"]
-    okk = len(calls) == 2 and all(any(k.arg == "precision" and norm(k.value) == "'millisecond'" for k in c.keywords)
-                                  and any(k.arg == "precision_constraint" and norm(k.value) == "precision_constraint" for k in c.keywords)
-                                  for c in calls)
+    okk = okp and len(calls) == 2 and all(any(k.arg == "precision" and norm(k.value) == "'millisecond'" for k in c.keywords)
+                                          and any(k.arg == "precision_constraint" and norm(k.value) == bpc["pc"] for k in c.keywords)
+                                          for c in calls)
     run.check(okp and okk, R, key(rel, nv.qualname, "compare-at-serialisation-precision"),
               "old and new modified times are not both normalised to the version's serialisation precision before comparison",
               file=rel, line=nv.node.lineno, function=nv.qualname,
@@ -319,9 +333,18 @@ def rule_strict_compare(ctx):
         t = tests[0].test
         found = norm(t)
         if isinstance(t, ast.Compare) and len(t.ops) == 1:
-            l, r, op = norm(t.left), norm(t.comparators[0]), t.ops[0]
-            ok = (l == "new_modified" and r == "old_modified" and isinstance(op, ast.LtE)) or \
-                 (l == "old_modified" and r == "new_modified" and isinstance(op, ast.GtE))
+            op = t.ops[0]
+            fl = flow_of(fi)
+            tn = fl.node_for(t)
+            pl, pr_ = fl.prov(t.left, tn), fl.prov(t.comparators[0], tn)
+            # "new" derives from kwargs['modified']; "old" from data.get('modified') or data.get('created')
+            def is_new(p):
+                cs = [c for c in p.consts if isinstance(c, str)]
+                return (fi.kwarg or "kwargs") in p.params and "modified" in cs and "created" not in cs
+
+            def is_old(p):
+                return fi.params[0] in p.params and "created" in [c for c in p.consts if isinstance(c, str)]
+            ok = (is_new(pl) and is_old(pr_) and isinstance(op, ast.LtE)) or (is_old(pl) and is_new(pr_) and isinstance(op, ast.GtE))
     run.check(ok, R, key(rel, fi.qualname, "supplied-modified-strictly-later"),
               "a caller-supplied modified time equal to (or earlier than) the current one is accepted", file=rel,
               line=tests[0].lineno if tests else fi.node.lineno, function=fi.qualname,
